@@ -1,1 +1,27 @@
-// placeholder
+// K11: serde span bridge -- included at the end of crates/toml_edit/src/de/spanned.rs under cfg(kani)
+mod verif_kani_spanned {
+    use super::*;
+
+    // SpannedDeserializer::new(v, a..b) driven by Spanned<i64>'s own Deserialize impl must
+    // deliver exactly (a, b, v): nothing swapped, nothing altered, for every a, b, v.
+    #[kani::proof]
+    #[kani::unwind(48)]
+    fn k11_span_bridge() {
+        let a: usize = kani::any();
+        let b: usize = kani::any();
+        let v: i64 = kani::any();
+        let de = SpannedDeserializer::new(v, a..b);
+        let r: Result<serde_spanned::Spanned<i64>, Error> =
+            serde::Deserialize::deserialize(serde::de::value::MapAccessDeserializer::new(de));
+        match &r {
+            Ok(s) => {
+                assert!(s.span().start == a, "span start altered");
+                assert!(s.span().end == b, "span end altered");
+                assert!(*s.get_ref() == v, "value altered");
+            }
+            Err(_) => assert!(false, "span bridge failed"),
+        }
+        kani::cover!(r.is_ok());
+        core::mem::forget(r);
+    }
+}
